@@ -1,5 +1,7 @@
 package main
 
+import "strings"
+
 func init() {
 	register("C01", func(c *Ctx, r *Report) {
 		r.Decides("writer/reader type tables of the RFC7951 JSON codec agree for every YANG kind the generator emits (generator type map, decode type map, per-kind assertions, wide-numeric stringification, leaf-list element kinds).",
@@ -229,5 +231,17 @@ func init() {
 		ruleEnumByNumber(c, r)
 		ruleKeyPresence(c, r)
 		ruleResultKeys(c, r)
+	})
+}
+
+func init() {
+	register("C22", func(c *Ctx, r *Report) {
+		r.Decides("A's and B's roles in DiffSetRequest follow argument order only (intents, leftovers, mismatch sides), common entries leave both sides, values are compared by reflect.DeepEqual; every intent key is fullPathStr(one prefix string, element path) through ygot.PathToString and no other code formats key predicates; replace = delete + leaves, update = leaves, a leaf replace drops its delete with and without schema; duplicate writes conflict only on !DeepEqual; proto leaf values take exactly the forms encoding/json yields; gnmidiff mutates only fresh roots.",
+			"reflexivity and swap symmetry at value level for all requests; equivalence of schema-aware and schema-less flattening for every schema.")
+		ruleDiffSymmetry(c, r)
+		ruleIntentNormal(c, r)
+		rulePathFmtOwner(c, r, libPkgs, 20)
+		ruleIfaceEq(c, r, c.funcsInScope(func(s string) bool { return strings.HasPrefix(s, "gnmidiff/") }, []string{"gnmidiff"}))
+		ruleGnmidiffRoot(c, r)
 	})
 }
